@@ -80,6 +80,14 @@ def _check_no_nones_in_list(lst: List, name: str):
             raise RuntimeError(f"{name} contains None value")
 
 
+def _check_only_tasks(lst: List, name: str):
+    # A task list object answers every attribute (it forwards them to its tasks), so it would slip through
+    # the checks of the dependency setters and be stored as if it were one task
+    for v in lst:
+        if not isinstance(v, Task):
+            raise RuntimeError(f"{name} contains {type(v).__name__}, not a task")
+
+
 def _unique_objects(tasks):
     res = []
     for t in tasks:
@@ -890,6 +898,7 @@ class Task:
         """
         value = _unique_objects(_to_list(value))
         _check_no_nones_in_list(value, 'predecessors')
+        _check_only_tasks(value, 'predecessors')
 
         parents = self.all_parents
         children = self.all_children
@@ -941,6 +950,7 @@ class Task:
         """
         value = _unique_objects(_to_list(value))
         _check_no_nones_in_list(value, 'successors')
+        _check_only_tasks(value, 'successors')
 
         parents = self.all_parents
         children = self.all_children
